@@ -57,7 +57,7 @@ func build() []op {
 	if err != nil {
 		panic(err)
 	}
-	_, upd, err := signature.SignEFIVariable(efivar.Db, &db, keys.K(1), keys.C(1))
+	desc, upd, err := signature.SignEFIVariable(efivar.Db, &db, keys.K(1), keys.C(1))
 	if err != nil {
 		panic(err)
 	}
@@ -82,6 +82,8 @@ func build() []op {
 		}},
 		{"update.Marshal", func() string { var b bytes.Buffer; upd.Marshal(&b); return sum(b.Bytes()) }},
 		{"update.Bytes", func() string { return sum(upd.Bytes()) }},
+		{"descriptor.Marshal", func() string { var b bytes.Buffer; desc.Marshal(&b); return sum(b.Bytes()) }},
+		{"descriptor.Verify(c1)", func() string { ok, err := desc.Verify(keys.C(1)); return fmt.Sprint(ok, err) }},
 	}
 	return ops
 }
